@@ -15,7 +15,16 @@
  *       level 1 derives from parsec_object_t, level D is the object's class
  * out : depth=K | ctor: ids | ev: t:v .. dN .. F | destroys=N late=N rc=R | steps: .. | static: cN .. dN ..
  */
+#if defined(VERIF_RACE)
+/* race-exploration build (clang -fsanitize=thread + tsanrt.c): every plain or atomic access to the
+ * registered shared bytes (the reference-count word of the object of the case) yields; no macro
+ * interposition.  The value returned by parsec_obj_update is logged by a wrapper around the call
+ * (see h_update below), the free() quarantine is the same. */
+#include "parsec/parsec_config.h"
+extern void race_share(const void *p, unsigned long len); extern void race_reset(void);
+#else
 #include "interpose.h"
+#endif
 #include "cosched.h"
 #include "hcommon.h"
 
@@ -26,8 +35,10 @@ static hev_t evs[MAXEV];
 static int nev, log_upd;
 static void *g_obj; static size_t g_objsize;
 static int g_destroys, g_late;
+/* arguments are plain locals of the caller: nothing shared is evaluated while logging */
 static void hlog(int kind, int a, int v) { if (nev < MAXEV) { evs[nev].kind = kind; evs[nev].a = a; evs[nev].v = v; nev++; } }
 
+#if !defined(VERIF_RACE)
 /* the atomic update: yield (scheduling point), then the real inline fetch-add, logged */
 #undef parsec_atomic_fetch_add_int32
 static inline int32_t h_fetch_add(volatile int32_t *l, int32_t v) {
@@ -38,6 +49,7 @@ static inline int32_t h_fetch_add(volatile int32_t *l, int32_t v) {
     return old;
 }
 #define parsec_atomic_fetch_add_int32(l,v) (cos_yield(), h_fetch_add((l),(v)))
+#endif
 
 /* free(): the object's block is quarantined (logged, released at the end of the case) */
 static void h_free(void *p) {
@@ -48,6 +60,20 @@ static void h_free(void *p) {
 
 #include "parsec/class/parsec_object.h"
 #include "parsec/class/parsec_object.c"
+
+#if defined(VERIF_RACE)
+/* PARSEC_OBJ_RETAIN / PARSEC_OBJ_RELEASE expanded below call this wrapper, which calls the real
+ * inline parsec_obj_update and logs (thread, value it RETURNED): that value is what the release tests */
+static inline int h_update(parsec_object_t *o, int inc) {
+    int on_obj = ((void *)o == g_obj);
+    int late = on_obj && g_destroys > 0;
+    int r = parsec_obj_update(o, inc);
+    if (late) g_late++;
+    if (on_obj && log_upd) hlog(EV_UPD, cos_self(), r);
+    return r;
+}
+#define parsec_obj_update(o, inc) h_update((o), (inc))
+#endif
 
 /* ---- class hierarchy: k1_t <- k2_t <- ... <- k6_t, each level adds a field ---- */
 typedef struct { parsec_object_t super; int f1; } k1_t;
@@ -138,6 +164,9 @@ int main(int argc, char **argv) {
         for (long i = 1; i < total; i++) { PARSEC_OBJ_RETAIN(obj); }
 
         log_upd = 1;
+#if defined(VERIF_RACE)
+        race_reset(); race_share((const void *)&obj->obj_reference_count, sizeof(obj->obj_reference_count));
+#endif
         cos_reset();
         for (int t = 0; t < nt; t++) cos_spawn(thread_fn, (void *)(intptr_t)t);
         int dl = cos_run(sched, ns, 100000);
